@@ -47,7 +47,26 @@ static combo_t combos[] = {
 	{FORMAT_HTML, X | EXT_RANDOM_FOOT, 0, 0}, {FORMAT_HTML, X | EXT_RANDOM_LABELS, 0, 0},
 	{FORMAT_EPUB, X, 0, 0}, {FORMAT_ODT, X, 0, 0}, {FORMAT_TEXTBUNDLE_COMPRESSED, X, 0, 0}, {FORMAT_ITMZ, X, 0, 0},
 	{FORMAT_HTML, X | EXT_CRITIC_ACCEPT, 0, 1, 1}, {FORMAT_LATEX, X | EXT_CRITIC_REJECT, 0, 1, 2}, {FORMAT_HTML, X, 0, 1, 3},
+	{FORMAT_TEXTBUNDLE, X, 0, 1, 4},		/* pre 4: written to a directory of its own with convert_to_file (relative path), then read back */
 };
+void mmd_string_convert_to_file(const char * source, unsigned long extensions, short format, short language, const char * directory, const char * filepath);
+static atomic_long bundle_id;
+static char * slurp(const char * dir, const char * name, size_t * len) {
+	char path[512];
+	snprintf(path, sizeof(path), "%s/%s", dir, name);
+	FILE * f = fopen(path, "rb");
+	*len = 0;
+	if (!f) return NULL;
+	fseek(f, 0, SEEK_END);
+	long n = ftell(f);
+	fseek(f, 0, SEEK_SET);
+	char * b = malloc(n + 1);
+	if (n && fread(b, 1, n, f) != (size_t) n) n = 0;
+	fclose(f);
+	b[n] = 0;
+	*len = n;
+	return b;
+}
 void mmd_critic_markup_accept(DString * d);
 void mmd_critic_markup_reject(DString * d);
 char * mmd_string_metadata_keys(char * source);
@@ -65,6 +84,30 @@ static out_t convert(uint32_t d, int c) {
 		o.p = malloc(o.len + 1);
 		if (keys) memcpy(o.p, keys, o.len);
 		free(keys);
+		return o;
+	}
+	if (combos[c].pre == 4) {
+		/* every call writes a bundle directory of its own; its members must be there afterwards, holding this document */
+		char dir[64];
+		snprintf(dir, sizeof(dir), "tb_%ld.textbundle", (long) atomic_fetch_add(&bundle_id, 1));
+		mmd_string_convert_to_file(docs[d].p, combos[c].ext, combos[c].fmt, combos[c].lang, NULL, dir);
+		size_t lt, li;
+		char * text = slurp(dir, "text.markdown", &lt), * info = slurp(dir, "info.json", &li);
+		const char * verdict = (!text) ? "MISSING text.markdown" : (!info) ? "MISSING info.json" : NULL;
+		if (verdict) {
+			o.len = strlen(verdict);
+			o.p = strdup(verdict);
+		} else if (strstr(text, "assets/")) {
+			/* asset names are random: presence of the members is all that is compared */
+			o.len = 6;
+			o.p = strdup("ASSETS");
+		} else {
+			o.len = lt;
+			o.p = text;
+			text = NULL;
+		}
+		free(text);
+		free(info);
 		return o;
 	}
 	if (combos[c].pre) {
